@@ -80,6 +80,11 @@ func generate(prop, tier, lane string, seed uint64, worker, run int) *Scenario {
 		scn.Strat = genStrategy(r)
 	case "C05":
 		scn.C05 = genC05(r, tier)
+		if run == 0 || (tier == "thorough" && run%500 == 250) {
+			// a regular share of the lifecycles builds a large, very regular
+			// trie between two builds of input 0 (process-history dependence)
+			scn.C05.Poison = []string{"decimal5", "mixedbases"}[(worker+run/500)%2]
+		}
 		scn.Strat = genStrategy(r)
 	case "C07":
 		scn.C07 = genC07(r, tier, worker, run)
